@@ -1335,7 +1335,9 @@ class Spec(object):
                 return [(Z, lin_scale(LEN(0), s), ('input', A(0)))]
             if len(kk) == 2 and kk[0] in ptrish and kk[1] in ptrish:
                 return [(Z, lin_sub(A(1), A(0)), ('input', A(0)))]
-            if kk == ('other',):
+            if kk in (('other',), ('other_move',)):
+                # copies, and moves that either adopt the source's buffer (then nothing is written and
+                # data() is the source's data()) or transfer element by element
                 od = atom(('init', self.cell(0, self.cur['pos'][0])))
                 return [(Z, lin_scale(OS(0), s), ('input', od))]
             if kk == () and ctor:
@@ -1356,9 +1358,9 @@ class Spec(object):
             return ('undecided', 'data pointer unknown', None)
         ctor = c['bn'] == 'small_vector::small_vector'
         inplace = (not ctor) and same(D1, D0, eqs)
-        own_inline = sym.is_lin(D1) and len(D1[2]) == 1 and D1[2][0] == (('arg', 0), 1)
-        if not inplace and not ctor and clean(D1) and not own_inline:
-            return ('undecided', 'data pointer is neither the entry buffer, the inline buffer nor a fresh one', None)
+        # otherwise the sequence lives somewhere else afterwards (a fresh buffer, the object's own
+        # inline buffer, a buffer adopted from the argument): everything that is not already there
+        # must be written
         fs = ex.get('facts') or []
 
         def prove_le(x, y):
